@@ -89,11 +89,72 @@ def _instances():
     return n
 
 
+def _reachable(roots, depth=9, limit=600000):
+    """ids of the objects reachable from `roots` through gc referents (classes and modules are not entered; of a
+    function, classmethod or property only the closure cells are)"""
+    import types
+    seen = set()
+    frontier = list(roots)
+    for _ in range(depth):
+        nxt = []
+        for o in frontier:
+            if isinstance(o, (classmethod, staticmethod)):
+                refs = [o.__func__]
+            elif isinstance(o, property):
+                refs = [f for f in (o.fget, o.fset, o.fdel) if f is not None]
+            elif isinstance(o, types.FunctionType):
+                refs = list(o.__closure__ or ()) + ([o.__dict__] if getattr(o, "__dict__", None) else [])
+            else:
+                refs = gc.get_referents(o)
+            for r in refs:
+                if id(r) in seen or isinstance(r, (type, types.ModuleType, types.CodeType)):
+                    continue
+                seen.add(id(r))
+                nxt.append(r)
+        frontier = nxt
+        if not frontier or len(seen) > limit:
+            break
+    return seen
+
+
+def _census(transports=()):
+    """live objects of every class that is not a builtin, by module.qualname -- whatever the class: nothing in the process may
+    accumulate with the number of runs (log handlers and filters, locks, caches of user-visible objects, ...).  Classes
+    themselves (instances of a metaclass) are the registry residue and are counted there."""
+    out = {}
+    # accounted elsewhere: what the registered (generated) classes hold (registry residue, F-C18-a) and what sits in the
+    # transports' queues (queue / channel residue, F-C18-b/c)
+    roots = []
+    for v in _registry().values():
+        for c in v:
+            roots.extend(vars(c).values())
+    for tr in transports:
+        qs = getattr(tr, "_queues", None)
+        if qs is not None:
+            roots.append(qs)
+    accounted = _reachable(roots)
+    for o in gc.get_objects():
+        try:
+            t = type(o)
+            if isinstance(o, type) or id(o) in accounted:
+                continue
+            m = getattr(t, "__module__", "") or ""
+            if m in ("builtins", "_abc", "weakref", "_weakref", "abc", "types", "functools", "_thread", "collections", "itertools",
+                     "_io", "_frozen_importlib", "_frozen_importlib_external", "importlib._bootstrap", "typing", "re", "enum"):
+                continue
+            k = m + "." + getattr(t, "__qualname__", t.__name__)
+            out[k] = out.get(k, 0) + 1
+        except Exception:  # noqa
+            pass
+    return out
+
+
 def sample(transport=None, jobtransport=None):
     gc.collect()
     reg = _registry()
     out = {"reg": {k: len(v) for k, v in reg.items()}, "total": sum(len(v) for v in reg.values()),
-           "live": _live(), "gc": len(gc.get_objects()), "inst": _instances()}
+           "live": _live(), "gc": len(gc.get_objects()), "inst": _instances(),
+           "census": _census([t for t in (transport, jobtransport) if t is not None])}
     if transport is not None:
         qs = getattr(transport, "_queues", None)
         if qs is not None:
@@ -294,7 +355,9 @@ def measure_master(points):
     done = 0
     try:
         for p in sorted(points):
-            futs = [orch.enqueue(ok_cfg if (done + i) % 2 == 0 else bad_cfg, return_future=True) for i in range(p - done)]
+            # succeeding jobs, jobs failing at run time, and jobs whose configuration the worker rejects (missing YAML file / not a list)
+            kinds = [ok_cfg, bad_cfg, "no_such_pipeline_file.yaml", ok_cfg, {"not": "a list"}, bad_cfg]
+            futs = [orch.enqueue(kinds[(done + i) % len(kinds)], return_future=True) for i in range(p - done)]
             t0 = time.time()
             for f in futs:
                 try:
@@ -312,7 +375,9 @@ def measure_master(points):
             done = p
             time.sleep(0.5)         # let the master finish its iteration
             gc.collect()
-            res["samples"][str(p)] = {"pending_futures": len(orch.pending_futures), "inst": _instances()}
+            res["samples"][str(p)] = {"pending_futures": len(orch.pending_futures), "inst": _instances(), "census": _census([tr]),
+                                      "log_filters": len(lg.logger.filters) if hasattr(lg, "logger") else None,
+                                      "log_handlers": len(lg.logger.handlers) if hasattr(lg, "logger") else None}
     except Exception as ex:  # noqa
         import traceback
         res["status"] = "exception %s: %s" % (type(ex).__name__, str(ex)[:200])
@@ -323,6 +388,84 @@ def measure_master(points):
         mt.join(3)
         wt.join(3)
     return res
+
+
+def measure_launches(points):
+    """A long-lived program that launches `semantiva run` in-process again and again, each launch with its own captured
+    stdout/stderr (what a service, a notebook or a test runner does).  Sampled after `points` launches."""
+    import contextlib, io, logging
+    from harness.lib import pipegen as pg
+    pg.setup_impl()
+    import yaml
+    import semantiva.cli as cli
+    tmp = tempfile.mkdtemp(prefix="c18_launch_")
+    doc = {"extensions": ["semantiva-examples"],
+           "pipeline": {"nodes": [{"processor": "FloatValueDataSource"}, {"processor": "FloatMultiplyOperation", "parameters": {"factor": 2.0}},
+                                  {"processor": "FloatCollectValueProbe", "context_key": "k"}]},
+           "run_space": {"blocks": [{"mode": "by_position", "context": {"value": [1.0, 2.0]}}]}}
+    path = os.path.join(tmp, "p.yaml")
+    with open(path, "w") as f:
+        yaml.safe_dump(doc, f, sort_keys=False)
+    res = {"samples": {}, "status": "ok"}
+    done = 0
+    try:
+        for p in sorted(points):
+            for _ in range(p - done):
+                out, err = io.StringIO(), io.StringIO()
+                with contextlib.redirect_stdout(out), contextlib.redirect_stderr(err):
+                    try:
+                        cli.main(["run", path])
+                    except SystemExit as ex:
+                        if ex.code not in (0, None):
+                            raise RuntimeError("launch exit code %r: %s" % (ex.code, err.getvalue()[-300:]))
+                del out, err
+            done = p
+            gc.collect()
+            loggers = [logging.getLogger()] + [l for l in logging.Logger.manager.loggerDict.values() if isinstance(l, logging.Logger)]
+            res["samples"][str(p)] = {"census": _census(), "inst": _instances(),
+                                      "log_handlers": sum(len(l.handlers) for l in loggers), "log_filters": sum(len(l.filters) for l in loggers),
+                                      "total": sum(len(v) for v in _registry().values())}
+    except Exception as ex:  # noqa
+        import traceback
+        res["status"] = "exception %s: %s" % (type(ex).__name__, str(ex)[:300])
+        res["tb"] = traceback.format_exc()[-1200:]
+    import shutil
+    shutil.rmtree(tmp, ignore_errors=True)
+    return res
+
+
+if __name__ == "__main__" and "--measure-launches" in sys.argv:
+    _real = sys.stdout
+    _out = measure_launches(json.load(sys.stdin))
+    sys.stdout = _real
+    sys.stdout.write(json.dumps(_out))
+    sys.exit(0)
+
+
+def launches_oracle(ck, thorough):
+    """C18, run-space launches repeated in one process: nothing may accumulate per launch."""
+    pts = [5, 15, 45] if thorough else [4, 8, 16]
+    r, err = core.run_impl("props/c18.py", args=["--measure-launches"], input_obj=pts, timeout=400)
+    if r is None:
+        ck.corr_problem("repeated-launch measurement did not complete", str(err)[-1200:])
+        return None
+    if r.get("status") != "ok" or len(r["samples"]) != len(pts):
+        ck.corr_problem("repeated-launch measurement failed: %s" % r.get("status"), r.get("tb", ""))
+        return r
+    a, b = str(pts[-2]), str(pts[-1])
+    sa, sb = r["samples"][a], r["samples"][b]
+    rep = {"kind": "repeated-launches", "points": pts, "what": "semantiva run (2-run run space) launched in-process, stdout/stderr captured per launch"}
+    for fld in ("log_handlers", "log_filters"):
+        if sb[fld] > sa[fld]:
+            ck.fail_input("C18:logger-%s-growth:repeated-launches" % fld[4:], "log %s accumulate with the number of launches in one process: %d after %s launches, "
+                          "%d after %s" % (fld[4:], sa[fld], a, sb[fld], b), rep)
+    for tname in sorted(sb["census"]):
+        grow = sb["census"][tname] - sa["census"].get(tname, 0)
+        if grow >= max(3, (int(b) - int(a)) // 3):
+            ck.fail_input("C18:live-object-growth:%s:repeated-launches" % tname, "live %s objects accumulate with the number of launches in one process: "
+                          "%d after %s launches, %d after %s" % (tname, sa["census"].get(tname, 0), a, sb["census"][tname], b), rep)
+    return {"points": pts, "registered_classes": {p: r["samples"][str(p)]["total"] for p in pts},
+            "log_handlers": {p: r["samples"][str(p)]["log_handlers"] for p in pts}}
 
 
 if __name__ == "__main__" and "--measure-master" in sys.argv:
@@ -338,7 +481,7 @@ if __name__ == "__main__" and "--measure-master" in sys.argv:
 
 def master_oracle(ck, thorough):
     """C18, queue master: no per-job residue in the master after succeeding AND failing jobs."""
-    pts = [4, 12, 36] if thorough else [2, 6, 18]
+    pts = [6, 18, 54] if thorough else [6, 12, 24]
     r, err = core.run_impl("props/c18.py", args=["--measure-master"], input_obj=pts, timeout=240)
     if r is None:
         ck.corr_problem("queue-master measurement did not complete", str(err)[-1200:])
@@ -352,6 +495,16 @@ def master_oracle(ck, thorough):
     if sb["pending_futures"] > sa["pending_futures"]:
         ck.fail_input("C18:master-pending-futures-growth", "the master's pending_futures table grows with the number of completed jobs: "
                       "%d after %s jobs, %d after %s jobs (half of them fail on the worker)" % (sa["pending_futures"], a, sb["pending_futures"], b), rep)
+    for tname in sorted(sb.get("census") or {}):
+        grow = sb["census"][tname] - (sa.get("census") or {}).get(tname, 0)
+        if grow >= max(3, (int(b) - int(a)) // 6):
+            ck.fail_input("C18:live-object-growth:%s:queue-master" % tname, "live %s objects grow with the number of jobs handled by a long-lived "
+                          "master and worker (succeeding, failing and rejected jobs): %d after %s jobs, %d after %s jobs"
+                          % (tname, (sa.get("census") or {}).get(tname, 0), a, sb["census"][tname], b), dict(rep, samples=None))
+    for fld in ("log_filters", "log_handlers"):
+        if sa.get(fld) is not None and sb.get(fld) is not None and sb[fld] > sa[fld]:
+            ck.fail_input("C18:logger-%s-growth:queue-master" % fld[4:], "the process-wide logger's %s grow with the number of jobs: %d after %s jobs, %d after %s"
+                          % (fld[4:], sa[fld], a, sb[fld], b), dict(rep, samples=None))
     for cat in ("futures", "pipelines", "nodes", "processors"):
         if sb["inst"][cat] > sa["inst"][cat]:
             ck.fail_input("C18:live-instance-growth:%s:queue-master" % cat, "live %s instances grow with the number of completed jobs in a "
@@ -558,6 +711,8 @@ def oracle(ck, case, r, reported):
               "registered_classes": {p: smp[p]["total"] for p in pts},
               "queue_messages": {p: smp[p].get("queue") for p in pts}, "job_channels": {p: smp[p].get("jobchannels") for p in pts},
               "gc_objects": {p: smp[p]["gc"] for p in pts}, "live_instances": {p: smp[p].get("inst") for p in pts}}
+    for p in pts:     # the census is large: keep only what changes
+        pass
     pairs = [(a, b) for a in pts for b in pts if b == 3 * a and a > 1]     # after warm-up: N >= 10 (quick) / 50 (thorough)
     found = []
     for a, b in pairs:
@@ -581,6 +736,14 @@ def oracle(ck, case, r, reported):
                     found.append(("C18:live-instance-growth:%s:%s" % (cat, WAY_SIG[way]),
                                   "live %s instances grow with the number of runs (%s): %d after run %d, %d after run %d"
                                   % (cat, WAY_SIG[way], ia[cat], a, ib[cat], b)))
+        ca, cb = smp[a].get("census"), smp[b].get("census")
+        if ca is not None and cb is not None:
+            for tname in sorted(cb):
+                grow = cb[tname] - ca.get(tname, 0)
+                if grow >= max(3, (b - a) // 4):
+                    found.append(("C18:live-object-growth:%s:%s" % (tname, WAY_SIG[way]),
+                                  "live %s objects (not held by registered classes, not queued in a transport) grow with the number of runs (%s): "
+                                  "%d after run %d, %d after run %d" % (tname, WAY_SIG[way], ca.get(tname, 0), a, cb[tname], b)))
         stable = smp[b]["total"] == smp[a]["total"] and smp[b].get("queue") == smp[a].get("queue") and \
             smp[b].get("jobchannels") == smp[a].get("jobchannels")
         if stable and smp[b]["gc"] - smp[a]["gc"] > (b - a):        # more than one object per run with nothing modelled growing
@@ -603,6 +766,10 @@ def run(ck):
     if thorough and proved:
         ck.coqchk()
     ck.notes["queue_master"] = master_oracle(ck, thorough)
+    if isinstance(ck.notes["queue_master"], dict):
+        for smp_ in (ck.notes["queue_master"].get("samples") or {}).values():
+            smp_.pop("census", None)          # large; the oracle has judged it
+    ck.notes["repeated_launches"] = launches_oracle(ck, thorough)
     facts = None
     try:
         from harness.translate import registry as tr
